@@ -240,5 +240,84 @@ func runC11(em *vEmitter, r *vRng) {
 		vStats["ops"] += len(ops)
 		ms.cleanup()
 	}
+	// directed histories: readers against a writer that only flips the admin status of the users they log
+	// in as (the password never changes and the users always exist, so every login must succeed, and the
+	// admin flag it reports must be one the writer had acknowledged or had in flight)
+	nr := 12
+	if vThorough() {
+		nr = 400
+	}
+	for ri := 0; ri < nr; ri++ {
+		ms := mNewStore("c11r", r, 1)
+		var init []string
+		us := []string{"root", "u1", "u2"}
+		for i, u := range us {
+			ms.plant(u, i == 0, 1, 1600000000, r.bytes(16), []byte("pw-"+u), "")
+			init = append(init, fmt.Sprintf("(%s, (%s, %s))", cS(u), cS("pw-"+u), cB(i == 0)))
+		}
+		st, err := NewStore(ms.cfgfile, "", "", "", "")
+		if err != nil {
+			panic(err)
+		}
+		api := st.GetInterface()
+		var mu sync.Mutex
+		var ops []c11Op
+		t0 := time.Now()
+		rec := func(o c11Op, f func(o *c11Op)) {
+			o.call = int64(time.Since(t0))
+			f(&o)
+			o.ret = int64(time.Since(t0))
+			mu.Lock()
+			ops = append(ops, o)
+			mu.Unlock()
+		}
+		var wg sync.WaitGroup
+		wg.Add(1)
+		go func() { // the writer
+			defer wg.Done()
+			for k := 0; k < 8; k++ {
+				u := us[1+k%2]
+				adm := k%4 < 2
+				rec(c11Op{client: 0, kind: "setadmin", user: u, admin: adm}, func(o *c11Op) { o.ok = api.SetAdmin(u, adm) == nil })
+			}
+		}()
+		for c := 1; c <= 3; c++ {
+			wg.Add(1)
+			go func(c int) {
+				defer wg.Done()
+				for k := 0; k < 6; k++ {
+					u := us[1+(k+c)%2]
+					rec(c11Op{client: c, kind: "auth", user: u, pw: "pw-" + u}, func(o *c11Op) {
+						ok, adm, _, _ := api.Authenticate(u, "pw-"+u)
+						o.ok, o.resAdmin = ok, ok && adm
+					})
+				}
+			}(c)
+		}
+		fin := make(chan struct{})
+		go func() { wg.Wait(); close(fin) }()
+		select {
+		case <-fin:
+		case <-time.After(20 * time.Second):
+			em.emit(vCase{Prop: "C11", Kind: "history", Class: "history/stalled", Nontrivial: true,
+				Violation: "requests of a directed reader/writer history never returned", Human: map[string]interface{}{}})
+			return
+		}
+		for _, u := range us {
+			rec(c11Op{client: 1000, kind: "auth", user: u, pw: "pw-" + u}, func(o *c11Op) {
+				ok, adm, _, _ := api.Authenticate(u, "pw-"+u)
+				o.ok, o.resAdmin = ok, ok && adm
+			})
+		}
+		var xs []string
+		for _, o := range ops {
+			xs = append(xs, o.coq())
+		}
+		em.emit(vCase{Prop: "C11", Kind: "history", Class: "history/readers-vs-set-admin", Nontrivial: true,
+			Coq:   fmt.Sprintf("LinHist %s %s", cList(init), cList(xs)),
+			Human: map[string]interface{}{"ops": len(ops), "mode": "off"}})
+		vStats["ops"] += len(ops)
+		ms.cleanup()
+	}
 	em.emit(vCase{Prop: "C11", Kind: "stats", Class: "stats", Human: vStats})
 }
